@@ -644,3 +644,44 @@ Proof.
       * right. split; [exact Es|].
         apply (axfr_style_done_is_denotation fin z0 ser ws x rest' z' n Httl Es Hlt Hch Hok Hwr' H).
 Qed.
+
+(* ---- the same over UDP: the whole answer is one datagram ---- *)
+Theorem udp_ixfr_done_is_denotation : forall fin z0 ser w ws rest z' n,
+  quiet z0 -> ttl_ok (v_ttl fin) -> v_serial fin <> ser ->
+  header_ok tIXFR w -> w_records w = soa_rr fin :: rest -> Forall wire_rec rest ->
+  match rest with x :: _ => exists b, x = soa_rr b /\ ttl_ok (v_ttl b) | [] => True end ->
+  inbound_xfr z0 tIXFR (Some ser) true (w :: ws) = (Done z', n) ->
+  exists secs z1 b,
+    rest = secs_stream secs ++ [soa_rr b] /\ secs <> [] /\ skel_ok ser fin secs /\
+    end_serial ser secs = v_serial fin /\ v_soa b = v_soa fin /\ apply_secs z0 secs = Some z1 /\
+    z' = zput soakey (v_ttl b, [v_soa b]) z1.
+Proof.
+  intros fin z0 ser w ws rest z' n Hq Httl Hs Hw Hr Hwr Hhead H.
+  unfold inbound_xfr, xfr_run in H. rewrite init_ixfr in H. cbn [Z.eqb tIXFR Pos.eqb] in H.
+  rewrite drive_cons in H by solve_req.
+  rewrite (first_message_ixfr z0 ser true w (soa_rr fin) rest Hw Hr) in H by (split; reflexivity).
+  cbv zeta in H. change (r_data (soa_rr fin) mod two32) with (v_serial fin) in H.
+  apply Z.eqb_neq in Hs. rewrite Hs in H.
+  destruct (serial_lt (v_serial fin) ser); [cbn in H; discriminate|].
+  destruct rest as [|x0 rest0]; [cbn in H; discriminate|]. cbn [andb] in H.
+  change (set_expecting (set_soa (set_txn (ixfr_init z0 ser true) (Some z0)) (Some (single (soa_rr fin)))) true)
+    with (ist true z0 z0 ser (single (soa_rr fin)) true false) in H.
+  set (s := ist true z0 z0 ser (single (soa_rr fin)) true false) in *.
+  destruct (loop s (map single (x0 :: rest0))) as [s' [e|]] eqn:Hl; [cbn in H; discriminate|].
+  destruct (done s') eqn:Hd.
+  2:{ assert (Hu : is_udp s' = true) by (apply loop_inv in Hl; destruct Hl as (_ & Hu & _); rewrite Hu; reflexivity).
+      rewrite Hu in H. cbn in H. discriminate. }
+  cbn [negb] in H. rewrite andb_false_r in H. cbn [cont] in H. rewrite Hd in H. inversion H; subst z' n.
+  destruct (exists_last (l := x0 :: rest0)) as (c & x & Ec); [discriminate|].
+  assert (Hhead' : match c with y :: _ => exists b, y = soa_rr b /\ ttl_ok (v_ttl b) | [] => exists b, x = soa_rr b /\ ttl_ok (v_ttl b) end).
+  { destruct c as [|c1 c']; cbn [app] in Ec; inversion Ec; subst; exact Hhead. }
+  clear Hhead. rewrite Ec in *. rewrite map_app in Hl. cbn [map] in Hl. rewrite loop_snoc in Hl.
+  destruct (loopn s (map single c)) as [s1 [e|]] eqn:Hn; [discriminate|].
+  apply Forall_app in Hwr. destruct Hwr as [Hwc Hwx]. inversion Hwx as [|? ? Hx _]; subst.
+  assert (Hinv : ixfr_inv true z0 z0 ser fin c s1).
+  { apply (ixfr_inv_run true z0 z0 ser fin Hq c [] s s1 (inv_start _ _ _ _ _) Hwc); [|exact Hn].
+    intros _. destruct c; [exact Logic.I|exact Hhead']. }
+  destruct (ixfr_inv_final true z0 z0 ser fin Hq c s1 x s' Hinv Hx) as (secs & tz & b & N & Ec' & Hsk & Hap & Hend & Ex & Hb & Eb & Hpub); try assumption.
+  { intros ->. exact Hhead'. }
+  exists secs, tz, b. subst. auto 10.
+Qed.
